@@ -17,6 +17,16 @@ def sweep(ctx):
             seq = seq[:1] + "N" + seq[2:]          # an N wildcard: the ranges end at the number of non-N bases
         out.append(dict(fmt="fastq", paired=False, demux="none", ads1=[dict(opt=ctx.rng.choice("agb"), seq=seq, restr=None, name=None)],
                         error_rate=r, overlap=1, n_reads=2))
+    # an absolute number of errors (k >= 1) is turned into the rate k / (number of non-N bases): the ranges must be
+    # those of that exact rate (k/n with an unwieldy decimal expansion: 1/12, 2/17, 2/13, 1/3, ...)
+    abs_combos = [(L, k) for L in (3, 6, 7, 9, 11, 12, 13, 14, 17, 19, 21, 23) for k in (1, 2, 3) if k < L]
+    if ctx.quick:
+        abs_combos = ctx.rng.sample(abs_combos, 14)
+    for L, k in abs_combos:
+        seq = LONG[:L]
+        out.append(dict(fmt="fastq", paired=False, demux="none",
+                        ads1=[dict(opt=ctx.rng.choice("ag"), seq=seq, restr=None, name=None, params=f"max_errors={k}")],
+                        error_rate=0.1, overlap=1, n_reads=2))
     return out
 
 
